@@ -41,16 +41,19 @@ pub fn run(o: &Opts, _deck: &str) -> String {
         let mut dr: Vec<f32> = vec![];
         let mut dp: Vec<f32> = vec![];
         let mut walkers = String::new();
-        let style = q % 4;
+        let style = q % 6;
         for _ in 0..len {
             let t = p.epochs();
             let r: f32 = match style {
                 0 => (rng.unit() as f32 - 0.5) * 40.0,
                 1 => if rng.chance(0.3) { 0.0 } else { (rng.unit() as f32 - 0.3) * 5.0 },
                 2 => 1.0,
-                _ => -(rng.unit() as f32) * 3.0,
+                3 => -(rng.unit() as f32) * 3.0,
+                4 => -8000.0 - (rng.unit() as f32) * 4000.0, // a long losing streak: the accumulated regret goes far below REGRET_MIN
+                _ => if rng.chance(0.5) { 0.0 } else { (rng.unit() as f32 - 0.5) * 10.0 },
             };
-            let pol: f32 = match style { 2 => 0.5, _ => rng.unit() as f32 };
+            // pure strategies (exactly 0.0 / 1.0) occur in styles 1 and 5
+            let pol: f32 = match style { 2 => 0.5, 1 | 5 => if rng.chance(0.4) { if rng.chance(0.5) { 0.0 } else { 1.0 } } else { rng.unit() as f32 }, _ => rng.unit() as f32 };
             walkers.push(match p.walker() { Player(Turn::Choice(0)) => '0', Player(Turn::Choice(_)) => '1', _ => '?' });
             dr.push(if p.phase() == robopoker::mccfr::phase::Phase::Discount { Discount::default().regret(t, r) } else { 1.0 });
             dp.push(Discount::default().policy(t));
